@@ -41,7 +41,8 @@ static std::vector<Ctx> done;              // contexts whose digest has been rea
 static bool active = false;
 static size_t cfgZ = 0, cfgP = 0;          // period check for long streams: octet i (i >= Z+P) must equal octet i-P
 static bool autoZ = false;                 // S2K: the k-th context opened is checked with Z = k (its preload zeros)
-static void begin(size_t Z = 0, size_t P = 0, bool az = false) { done.clear(); open_ctx.clear(); active = true; cfgZ = Z; cfgP = P; autoZ = az; }
+static int cfgAlgo = 0;                    // ... counting only contexts of this algorithm (0 = all)
+static void begin(size_t Z = 0, size_t P = 0, bool az = false, int algo = 0) { done.clear(); open_ctx.clear(); active = true; cfgZ = Z; cfgP = P; autoZ = az; cfgAlgo = algo; }
 static void end() { active = false; }
 static void feed(Ctx &c, const unsigned char *p, size_t len) {
 	for (size_t k = 0; k < len; k++) {
@@ -86,9 +87,11 @@ gcry_error_t gcry_md_open(gcry_md_hd_t *h, int algo, unsigned int flags) {
 	static gcry_error_t (*f)(gcry_md_hd_t *, int, unsigned int) = seam_md::real<gcry_error_t (*)(gcry_md_hd_t *, int, unsigned int)>("gcry_md_open");
 	gcry_error_t r = f(h, algo, flags);
 	if (!r && seam_md::active && h && *h) {
-		seam_md::Ctx c; c.algo = algo; c.Z = seam_md::cfgZ; c.P = seam_md::cfgP; c.win.assign(c.P, 0);
+		seam_md::Ctx c; c.algo = algo;
+		bool counted = (seam_md::cfgAlgo == 0 || seam_md::cfgAlgo == algo);
+		if (counted) { c.Z = seam_md::cfgZ; c.P = seam_md::cfgP; c.win.assign(c.P, 0); }
 		seam_md::open_ctx[*h] = c;
-		if (seam_md::autoZ) seam_md::cfgZ++;
+		if (seam_md::autoZ && counted) seam_md::cfgZ++;
 	}
 	return r;
 }
@@ -293,6 +296,25 @@ static json run_case(const json &c) {
 	} else if (op == "sig1") {
 		gcry_mpi_t s = M(in["s"]); octets e;
 		PGP::PacketSigEncode(O(in["hashed"]), O(in["left"]), s, e); g["enc"] = J(e); gcry_mpi_release(s);
+	} else if (op == "sec") {
+		bool sub = in["sub"].get<bool>(); int algo = in["algo"].get<int>(); time_t kt = (time_t)FromPair(in["time"]); octets e;
+		std::vector<gcry_mpi_t> ms; for (size_t k = 0; k < in["mpis"].size(); k++) ms.push_back(M(in["mpis"][k]));
+		gcry_mpi_t z = gcry_mpi_new(8); gcry_mpi_set_ui(z, 0); gcry_mpi_t x = M(in["x"]);
+		gcry_mpi_t p = ms[0], q = z, gg = z, y = z;
+		if (algo == 16) { gg = ms[1]; y = ms[2]; } else { q = ms[1]; gg = ms[2]; y = ms[3]; }
+		tmcg_openpgp_secure_string_t nopass = "";
+		if (sub) PGP::PacketSsbEncode(kt, (tmcg_openpgp_pkalgo_t)algo, p, q, gg, y, x, nopass, e);
+		else PGP::PacketSecEncode(kt, (tmcg_openpgp_pkalgo_t)algo, p, q, gg, y, x, nopass, e);
+		g["enc"] = J(e);
+		for (size_t k = 0; k < ms.size(); k++) gcry_mpi_release(ms[k]);
+		gcry_mpi_release(z); gcry_mpi_release(x);
+		Decoded d; decode_packet(O(in["os"]), d);
+		tmcg_openpgp_packet_ctx_t &c = d.ctx; json dj;
+		dj["ret"] = (int)d.ret; dj["v"] = (int)c.version; dj["time"] = Pair32(c.keycreationtime); dj["algo"] = (int)c.pkalgo; dj["s2kconv"] = (int)c.s2kconv;
+		json mj = json::array();
+		if (algo == 16) { mj.push_back(JM(c.p)); mj.push_back(JM(c.g)); mj.push_back(JM(c.y)); }
+		else { mj.push_back(JM(c.p)); mj.push_back(JM(c.q)); mj.push_back(JM(c.g)); mj.push_back(JM(c.y)); }
+		dj["mpis"] = mj; dj["x"] = JM(c.x); g["dec"] = dj; release(d);
 	} else if (op == "sigdec") {
 		Decoded d; decode_packet(O(in["os"]), d);
 		tmcg_openpgp_packet_ctx_t &c = d.ctx;
@@ -427,6 +449,33 @@ static void rec_sigprep(const std::string &fn, int type, int pk, int hash, uint3
 	ev["out"] = J(out); emit(ev);
 }
 
+static void rec_secenc(bool sub, int algo, size_t plen, size_t xlen, const std::string &pass) {
+	json ev; ev["e"] = "SecEnc"; ev["sub"] = sub; ev["algo"] = algo; uint32_t t = (uint32_t)seam::next64(); ev["time"] = Pair32(t);
+	std::vector<octets> mo; size_t nm = (algo == 16) ? 3 : 4;
+	for (size_t k = 0; k < nm; k++) { octets o = rnd(k == 1 && algo == 17 ? xlen : plen); o[0] |= 1; mo.push_back(o); }
+	octets xo = rnd(xlen); xo[0] |= 1;
+	json mj = json::array(); for (size_t k = 0; k < nm; k++) mj.push_back(J(mo[k])); ev["mpis"] = mj; ev["x"] = J(xo); ev["pass"] = J(pass);
+	std::vector<gcry_mpi_t> ms; for (size_t k = 0; k < nm; k++) ms.push_back(M(mj[k]));
+	gcry_mpi_t z = gcry_mpi_new(8); gcry_mpi_set_ui(z, 0); gcry_mpi_t x = M(ev["x"]);
+	gcry_mpi_t p = ms[0], q = z, gg = z, y = z;
+	if (algo == 16) { gg = ms[1]; y = ms[2]; } else { q = ms[1]; gg = ms[2]; y = ms[3]; }
+	tmcg_openpgp_secure_string_t pw(pass.begin(), pass.end()); octets out;
+	seam::clear_log(); seam::record(true);
+	seam_md::begin(0, 8 + pass.size(), true, GCRY_MD_SHA256);
+	if (sub) PGP::PacketSsbEncode((time_t)t, (tmcg_openpgp_pkalgo_t)algo, p, q, gg, y, x, pw, out);
+	else PGP::PacketSecEncode((time_t)t, (tmcg_openpgp_pkalgo_t)algo, p, q, gg, y, x, pw, out);
+	seam_md::end(); seam::record(false);
+	json rj = json::array();
+	for (size_t k = 0; k < seam::log().size(); k++) {
+		json b = json::array(); const std::string &hx = seam::log()[k].hex;
+		for (size_t c = 0; c + 1 < hx.size(); c += 2) b.push_back((int)strtol(hx.substr(c, 2).c_str(), NULL, 16));
+		rj.push_back(b);
+	}
+	ev["rng"] = rj; ev["out"] = J(out); emit(ev);
+	for (size_t k = 0; k < ms.size(); k++) gcry_mpi_release(ms[k]);
+	gcry_mpi_release(z); gcry_mpi_release(x);
+}
+
 static int do_record(uint64_t seed, const std::string &tier, const char *outpath) {
 	seam::seed_harness(seed);
 	std::ofstream out(outpath); rec_out = &out;
@@ -487,6 +536,11 @@ static int do_record(uint64_t seed, const std::string &tier, const char *outpath
 			static const int RC[] = {0, 1, 2, 3, 32};
 			rec_sigprep(fn, (r % 2) ? TY2[f] : TY[f], PK[(r + f) % 4], HASHES[(r + f) % 7], t, ex, rnd(il), policy, flags, revoker, PK[(r + 1) % 4], RC[(r + f) % 5], reason, r % 2 == 0);
 		}
+	// passphrase-protected secret key and secret subkey packets
+	for (int r = 0; r < (thorough ? 8 : 2); r++) {
+		std::string pass; size_t pl = rndn(1, 14); for (size_t k = 0; k < pl; k++) pass.push_back((char)('a' + seam::next64() % 26));
+		rec_secenc(r % 2 == 1, (r / 2) % 2 ? 16 : 17, r % 2 ? 128 : 96, r % 2 ? 32 : 20, pass);
+	}
 	out.close();
 	printf("{\"e\":\"done\"}\n");
 	return 0;
